@@ -9,6 +9,27 @@ pub fn plain(w: usize) -> Vec<M> { let mut g = Gen::new(atoms()); let mut out = 
 /// same shapes, every atom instance given a unique marker so positions are distinguishable; markers encode to >= 9 bytes so that
 /// a coincidental occurrence inside random ciphertext or a digest has negligible probability (< 2^-60 per search)
 pub fn marked(w: usize) -> Vec<M> { plain(w).into_iter().map(|m| { let mut k = 0; mark(&m, &mut k) }).collect() }
+/// trees in which a whole assertion occurs a second time, nested in a sibling (on its object, on its predicate, behind a wrapper) or inside
+/// a wrapped subject; four different carrier markers each, so that the carrier sorts before and after the original by digest
+pub fn repeated(w: usize) -> Vec<M> {
+    let t = |s: String| M::Leaf(V::Text(s));
+    let mut out = vec![];
+    for m in marked(w) {
+        let M::Node(s, a) = &m else { continue };
+        for ai in a {
+            if !matches!(ai, M::Assertion(..)) { continue }
+            for k in 0..4 {
+                let (rp, ro) = (t(format!("carrier-p{k}-0123456789")), t(format!("carrier-o{k}-0123456789")));
+                let with = |x: M| { let mut v = a.clone(); v.push(x); M::Node(s.clone(), v) };
+                out.push(with(M::Assertion(Box::new(rp.clone()), Box::new(M::Node(Box::new(ro.clone()), vec![ai.clone()])))));
+                out.push(with(M::Assertion(Box::new(M::Node(Box::new(rp.clone()), vec![ai.clone()])), Box::new(ro.clone()))));
+                out.push(with(M::Assertion(Box::new(rp.clone()), Box::new(M::Wrapped(Box::new(M::Node(Box::new(ro.clone()), vec![ai.clone()])))))));
+                if k == 0 { out.push(M::Node(Box::new(M::Wrapped(Box::new(M::Node(s.clone(), vec![ai.clone()])))), a.clone())) }
+            }
+        }
+    }
+    out
+}
 pub fn mark(m: &M, k: &mut usize) -> M {
     match m {
         M::Leaf(V::Text(_)) => { *k += 1; M::Leaf(V::Text(format!("marker-{:02}-0123456789", *k))) }
@@ -116,12 +137,36 @@ pub fn factorial(n: usize) -> usize { (1..=n.min(12)).product::<usize>().max(1) 
 
 /// shapes at CBOR head-width boundaries and beyond the small-scope families: wide nodes (array length 23/24/25, 255/256/257),
 /// deep wrapping, a wide node inside an assertion object, long text / byte-string leaves
-pub fn wide_tier(thorough: bool) -> Vec<(String, M)> { wide().into_iter().filter(|(n, _)| thorough || !(n.contains("6553") || n == "node-254-assertions" || n == "node-255-assertions")).collect() }
+pub fn wide_tier(thorough: bool) -> Vec<(String, M)> { wide().into_iter().filter(|(n, _)| thorough || !(n.contains("6553") || ["node-127-assertions", "node-129-assertions", "node-254-assertions", "node-255-assertions"].contains(&n.as_str()))).collect() }
+/// boundary shapes + the count and depth sweeps (for checks that cost little per shape)
+pub fn wide_all(thorough: bool) -> Vec<(String, M)> { let mut v = wide_tier(thorough); v.extend(node_sweep(1, if thorough { 140 } else { 72 })); v.extend(depth_sweep(if thorough { 64 } else { 40 })); v }
+/// a node with n plain assertions for EVERY n in the range (cheap checks sweep all counts, so that a fault at exactly one count is met)
+pub fn node_sweep(lo: usize, hi: usize) -> Vec<(String, M)> {
+    let t = |s: String| M::Leaf(V::Text(s));
+    (lo..=hi).map(|n| (format!("sweep-node-{n}"), M::Node(Box::new(t("sweep".into())), (0..n).map(|i| M::Assertion(Box::new(t(format!("q{i:03}"))), Box::new(M::Leaf(V::U(i as u64))))).collect()))).collect()
+}
+/// wrapping depth sweep and nesting depth sweep
+pub fn depth_sweep(hi: usize) -> Vec<(String, M)> {
+    let t = |s: String| M::Leaf(V::Text(s));
+    let mut out = vec![];
+    let mut w = t("deep".into()); for d in 1..=hi { w = M::Wrapped(Box::new(w)); out.push((format!("sweep-wrapped-x{d}"), w.clone())) }
+    let mut nest = t("n0".into()); for d in 1..=hi { nest = M::Node(Box::new(t(format!("n{d}"))), vec![M::Assertion(Box::new(t(format!("child{d}"))), Box::new(nest))]); out.push((format!("sweep-nested-x{d}"), nest.clone())) }
+    out
+}
 pub fn wide() -> Vec<(String, M)> {
     let t = |s: String| M::Leaf(V::Text(s));
     let a = |i: usize| M::Assertion(Box::new(t(format!("p{i:03}"))), Box::new(M::Leaf(V::U(i as u64))));
     let mut out = vec![];
-    for n in [22usize, 23, 24, 25, 40, 254, 255, 256] { out.push((format!("node-{n}-assertions"), M::Node(Box::new(t("wide".into())), (0..n).map(a).collect()))) }
+    for n in [15usize, 16, 17, 22, 23, 24, 25, 31, 32, 33, 40, 63, 64, 65, 127, 128, 129, 254, 255, 256] { out.push((format!("node-{n}-assertions"), M::Node(Box::new(t("wide".into())), (0..n).map(a).collect()))) }
+    // a predicate used twice with an unrelated assertion sorting BETWEEN the two by digest (6 instances), and not between (2 instances)
+    { let (mut between, mut outside) = (0, 0);
+      for i in 0..60 { let (a1, a2, o) = (M::Assertion(Box::new(t("knows".into())), Box::new(t("Bob".into()))), M::Assertion(Box::new(t("knows".into())), Box::new(t("Carol".into()))), M::Assertion(Box::new(t(format!("other-{i}"))), Box::new(M::Leaf(V::U(i as u64)))));
+        let (d1, d2, d3) = (a1.digest(), a2.digest(), o.digest()); let is_between = (d1.min(d2) < d3) && (d3 < d1.max(d2));
+        if (is_between && between < 6) || (!is_between && outside < 2) { if is_between { between += 1 } else { outside += 1 } out.push((format!("dup-predicate-{}-{i}", if is_between { "split" } else { "adjacent" }), M::Node(Box::new(t("Alice".into())), vec![a1, a2, o]))) } } }
+    // four assertions sharing a predicate among 26 others
+    out.push(("node-30-with-4-same-predicate".into(), M::Node(Box::new(t("mixed".into())), (0..30).map(|i| if i % 8 == 3 { M::Assertion(Box::new(t("tag".into())), Box::new(t(format!("v{i}")))) } else { a(i) }).collect())));
+    // one predicate at 20 positions (a digest occurring many times)
+    out.push(("node-20-same-predicate".into(), M::Node(Box::new(t("Alice".into())), (0..20).map(|i| M::Assertion(Box::new(t("knows".into())), Box::new(t(format!("friend-{i:02}"))))).collect())));
     let mut w = t("deep".into()); for _ in 0..24 { w = M::Wrapped(Box::new(w)) } out.push(("wrapped-x24".into(), w));
     let mut nest = M::Node(Box::new(t("n0".into())), vec![a(0)]); for i in 1..12 { nest = M::Node(Box::new(t(format!("n{i}"))), vec![M::Assertion(Box::new(t(format!("child{i}"))), Box::new(nest))]) } out.push(("nested-nodes-x12".into(), nest));
     out.push(("wide-node-as-object".into(), M::Node(Box::new(t("outer".into())), vec![M::Assertion(Box::new(t("inner".into())), Box::new(M::Node(Box::new(t("w".into())), (0..24).map(a).collect()))), a(900)])));
@@ -140,3 +185,6 @@ pub fn masks(k: usize) -> Vec<u32> {
     v.push(((1u64 << k) - 1) as u32);
     v
 }
+
+/// k digests that occur in no generated tree
+pub fn absent_digests(k: usize) -> Vec<crate::refmodel::tree::D> { (0..k).map(|i| crate::refmodel::sha256::sha256(format!("absent-digest-{i}").as_bytes())).collect() }
